@@ -436,3 +436,25 @@ Definition fop_slots (op : fop) : list nat :=
   end.
 (* what an observer of the wrappers sees of one step: outcome and emptiness of every wrapper *)
 Definition obs (t : outcome * list event * list bool) : outcome * list bool := (fst (fst t), snd t).
+
+(* ================================================================== throwing copy constructors
+   (finding F9b, outside the main theorems' hypothesis "constructors of wrapped objects do not
+   throw").  function_base::op_assign(function_base const&) destroys the old object first (in
+   place when vptr == other.vptr, through destroy() otherwise) and only then runs T's copy
+   constructor.  When that throws, neither [object] nor (first branch) [vptr] is reset: the
+   wrapper still points at the destroyed object, reports non-empty, and destroys it again.
+   (In the second branch vptr already is other's; the model keeps [this], which is exact for the
+   witness cases the harness replays: same stored type.) *)
+Definition f_copy_assign_throw (this other : storage) (L : ledger)
+  : outcome * storage * storage * ledger :=
+  match other with
+  | Empty => f_copy_assign this other L          (* no copy constructor runs *)
+  | _ => (OThrew 0, this, other, release this L)
+  end.
+
+Inductive fxop := FX (op : fop) | FXCopyAssignThrow (j i : nat).
+Definition fxstep (op : fxop) (st : state) : outcome * state :=
+  match op with
+  | FX op => fstep op st
+  | FXCopyAssignThrow j i => op2 f_copy_assign_throw j i st
+  end.
